@@ -25,6 +25,11 @@ func drawC12Script(t *Tape, snap bool) []Op {
 			op := Op{Kind: "response", Arg: []string{"cur", "cur", "cur", "prev", "unknown", "last"}[t.Draw(6)]}
 			if t.Chance(1, 4) {
 				op.Hdr = map[string]string{"__bad-mode-when-illegal": "1"}
+			} else if op.Arg == "cur" && t.Chance(1, 4) {
+				// the answer is submitted twice at once: a duplicate (another response, or an error) is under way on a
+				// second connection, its handler descheduled at a drawn lock site, when the answer itself arrives
+				op = Op{Kind: "response-race", Arg: []string{"response", "error"}[t.Draw(2)],
+					Site: []string{"", "GetCurrentInvokeID", "registrationServiceImpl).GetRuntime", "core.(*Runtime).", "SetState", "GetState", "Server).SendResponse", "Server).SendErrorResponse", "ResponseSent", "setRuntimeState"}[t.Draw(10)]}
 			}
 			ops = append(ops, op)
 		case 2:
@@ -60,6 +65,11 @@ func scenC12(r *Run, job *Job) {
 	if restore && t.Chance(1, 3) {
 		// the restore is descheduled at one of its own steps while the runtime it has (or has not yet) released runs on
 		r.AddHold([]string{"SetRenderer<lambda/rapid.handleRestore", "UpdateCredentials<lambda/rapid.handleRestore", "lambda/rapid.handleRestore"}[t.Draw(3)], 1+t.Draw(3), 1+t.Draw(3))
+	}
+	if !restore && t.Chance(1, 6) {
+		// the init goroutine is descheduled around "make the runtime known / start it" while the runtime's first call
+		// (or, in a later generation, any call) arrives
+		r.AddHold([]string{"PreregisterRuntime<lambda/rapid.doRuntimeDomainInit", "createExitedChannel<lambda/rapid.doRuntimeDomainInit", "lambda/rapid.doRuntimeDomainInit"}[t.Draw(3)], 1+t.Draw(3), 1+t.Draw(3))
 	}
 	w := r.NewWorld(WorldCfg{TimeoutSec: timeoutSec, InitCaching: snap}, job.Seed)
 	e := w.NewEngine()
@@ -197,7 +207,19 @@ func c12Judge(r *Run, w *World, a *Actor, snap, operatorRestore bool) {
 		case "rt-response", "rt-error":
 			parts := strings.Split(c.Path, "/")
 			id := parts[len(parts)-2]
-			if state == working && id == curID {
+			if state == working && id == curID && c.Pair != nil {
+				// the same invocation answered on two connections at once: accepted once, the other call refused
+				p := c.Pair
+				okMain := c.Status == 202 || c.Status == 413
+				okSide := p.Done && p.Err == nil && (p.Status == 202 || p.Status == 413)
+				r.Check(okMain != okSide, "C12.concurrent-submissions", "%s: two concurrent submissions for the in-flight id were answered %d and %d: exactly one must be accepted", who, c.Status, p.Status)
+				loser := c
+				if okMain {
+					loser = p
+				}
+				r.Check(!loser.Done || loser.Err != nil || refusal(loser, 400, 403), "C12.concurrent-submissions", "%s: the losing one of two concurrent submissions was answered %d %s, expected 403 (or 400)", who, loser.Status, summarize(loser.Body))
+				state = answered
+			} else if state == working && id == curID {
 				r.Check(c.Status == 202 || c.Status == 413, "C12.submission-refused", "%s: %s for the in-flight id answered %d %s", who, c.Tag, c.Status, summarize(c.Body))
 				state = answered
 			} else if id != curID || curID == "" {
